@@ -53,13 +53,22 @@ def generate(prop, seed, tier):
     ops = []
     n_ops = S.int(2, 4)
     for k in range(n_ops):
-        op = S.wpick([("transforms", 1), ("pushforward", 2), ("draw", 2), ("cond_sample", 4), ("cond_cdf", 1.5), ("cond_icdf", 2), ("iform", 2.5), ("cache", 0.8), ("cdf_empirical", 0.3 if tier == "thorough" else 0.1), ("skew", 0.7)])
+        op = S.wpick([("transforms", 1), ("pushforward", 2), ("draw", 2), ("cond_sample", 4), ("cond_cdf", 1.5), ("cond_icdf", 2), ("iform", 2.5), ("cache", 0.8), ("cdf_empirical", 0.3 if tier == "thorough" else 0.1), ("skew", 0.7), ("sample_law", 0.8), ("cache_iform_sample", 0.8)])
+        if op == "sample_law":
+            ops.append({"op": "sample_law", "pin": S.sub("slpin", k)})
+            continue
+        if op == "cache_iform_sample":
+            # history: the cached sample exists, a contour is computed, the sample is looked at again
+            ops.append({"op": "sample_law", "pin": S.sub("slpin", k)})
+            ops.append({"op": "iform", "alpha": S.pick([0.2, 0.1, 0.05]), "n_points": 4, "pin": S.sub("ipin", k), "repeat": S.chance(0.6)})
+            ops.append({"op": "sample_law", "pin": S.sub("slpin2", k)})
+            continue
         if op == "transforms":
             ops.append({"op": op, "pseed": S.sub("t", k), "n": 50})
         elif op == "pushforward":
             ops.append({"op": op, "pseed": S.sub("p", k), "n": 40})
         elif op == "draw":
-            ops.append({"op": op, "n": S.pick([1, 5, 1000, 50000]), "pin": S.sub("pin", k)})
+            ops.append({"op": op, "n": S.wpick([(1, 1), (5, 1), (1000, 1), (50000, 1), (1500000, 0.6)]), "pin": S.sub("pin", k)})
         elif op in ("cond_sample", "cond_cdf", "cond_icdf"):
             dim = S.wpick([(1, 4), (0, 1)])
             o = {"op": op, "dim": dim, "given_q": S.pick(GIVEN_Q if dim == 1 else [0.05, 0.3, 0.5, 0.8, 0.95]), "seed": S.pick([None, S.sub("cs", k) % 100000])}
@@ -367,10 +376,14 @@ def _execute(prop, scen):
                 if uni["random_state"] is None:
                     seams.pin_global(op["pin"])
                     b = np.asarray(t.model.draw_sample(op["n"]))
-                    want = np.column_stack([b[:, 0], Ref.to_tz(b[:, 0], b[:, 1])])
-                    if not np.allclose(x, want, rtol=1e-12, atol=0):
-                        run.violate("I2-samples-are-inverse-transformed-base-samples", "draw_sample", {"max_rel_dev": float(np.max(np.abs(x / want - 1))), "step": si})
-                        return run
+                else:
+                    b = np.asarray(t.model.draw_sample(op["n"], random_state=_rs(uni)))
+                want = np.column_stack([b[:, 0], Ref.to_tz(b[:, 0], b[:, 1])])
+                run.count("inverse_transform_comparisons")
+                if x.shape != want.shape or not np.allclose(x, want, rtol=1e-12, atol=0):
+                    nbad = int(np.sum(~np.isclose(x, want, rtol=1e-12, atol=0).all(axis=1))) if x.shape == want.shape else None
+                    run.violate("I2-samples-are-inverse-transformed-base-samples", "draw_sample", {"n": op["n"], "rows_differing": nbad, "seeded": uni["random_state"] is not None, "step": si})
+                    return run
                 if op["n"] >= 1000:
                     # law: Hs marginal, Tz | Hs through the Rosenblatt image, which must also be
                     # independent of Hs (uniform within quantile bins of Hs)
@@ -490,6 +503,33 @@ def _execute(prop, scen):
                         dv = np.max(np.abs(np.asarray(c2.coordinates, dtype=float) - xy), axis=0)
                         run.violate("I5-seeded-iform-reproduces", "iform", {"random_state": uni["random_state"], "max_abs_diff_per_coordinate": dv.tolist(), "step": si})
                         return run
+            elif k == "sample_law":
+                smp = np.asarray(api(lambda: t.sample), dtype=float)
+                run.event(k, None, [smp.shape, float(smp[0, 0])])
+                if smp.shape != (1_000_000, 2):
+                    run.violate("I6-cached-sample-shape", "sample", {"shape": list(smp.shape), "step": si})
+                    return run
+                u0 = ref.hs_cdf(smp[:, 0])
+                u1 = ref.tz_cdf(smp[:, 1], smp[:, 0])
+                for nm, u in (("hs", u0), ("tz|hs", u1)):
+                    run.count("dkw_comparisons")
+                    if not _ks(u) <= eps_dkw(len(u)):
+                        run.violate("I6-cached-sample-law", nm, {"sup_distance": _ks(u), "eps_dkw": eps_dkw(len(u)), "after": [o["op"] for o in scen["ops"][:si]], "step": si})
+                        return run
+                order = np.argsort(smp[:, 0], kind="stable")
+                for b_, idx in enumerate(np.array_split(order, 5)):
+                    run.count("dkw_comparisons")
+                    d_ = _ks(u1[idx])
+                    if not d_ <= eps_dkw(len(idx)):
+                        run.violate("I6-cached-sample-law", "tz|hs-within-hs-bin", {"bin": b_, "sup_distance": d_, "eps_dkw": eps_dkw(len(idx)), "after": [o["op"] for o in scen["ops"][:si]], "step": si})
+                        return run
+                pt = np.array([[float(ref.hs_ppf(0.6)), float(ref.tz_ppf(0.6, float(ref.hs_ppf(0.5))))]])
+                e1 = float(api(t.empirical_cdf, pt)[0])
+                own = float(np.mean(np.all(smp <= pt[0], axis=1)))
+                if abs(e1 - own) > 1e-12:
+                    run.violate("I6-empirical-cdf-of-own-sample", "cache", {"empirical_cdf": e1, "from_sample": own, "step": si})
+                    return run
+                run.count("probe:cached-sample-checked-after-other-operations" if si > 0 else "cached_sample_checked")
             elif k == "cache":
                 pts = np.array([[float(ref.hs_ppf(0.6)), float(ref.tz_ppf(0.6, float(ref.hs_ppf(0.5))))]])
                 e1 = float(t.empirical_cdf(pts)[0])
@@ -570,5 +610,5 @@ def describe(prop):
             "the sampler's documented design is respected: domain (0, 100), joint density below 1e-7 ignored; the designed-away mass m0 is added to every tolerance and conditioning values with m0 > 1 % or support beyond 100 are not judged",
             "DKW at error probability 1e-12 per comparison; tail-coverage bound (F(max)/F(c*))^n < 1e-12",
         ],
-        "probes": ["empirical-cdf-after-refit"],
+        "probes": ["empirical-cdf-after-refit", "cached-sample-checked-after-other-operations"],
     }
